@@ -55,6 +55,9 @@ func (r *c05) Exec(op []string) string {
 		if len(data) >= 15 {
 			r.st.Note("heapify>=4levels")
 		}
+		if len(data) >= 64 {
+			r.st.Note("heapify>=7levels")
+		}
 		return r.obs("-")
 	case "add":
 		n := r.q.Len()
@@ -65,8 +68,14 @@ func (r *c05) Exec(op []string) string {
 		if n >= 15 {
 			r.st.Note("add-at-level>=4")
 		}
+		if n >= 63 {
+			r.st.Note("add-at-level>=6")
+		}
 		return r.obs(strconv.Itoa(i))
 	case "pop":
+		if r.q.Len() >= 64 {
+			r.st.Note("pop-of>=64")
+		}
 		v, ok := r.q.Pop()
 		return r.obs(fmtPop(v, ok))
 	case "remove":
@@ -76,12 +85,22 @@ func (r *c05) Exec(op []string) string {
 		}
 		if i >= r.q.Len() {
 			r.st.Note("remove-out-of-range")
+		} else if i >= 63 {
+			r.st.Note("remove-at-level>=6")
+		} else if i >= 15 {
+			r.st.Note("remove-at-level4-5")
+		}
+		if i > 0 && i < r.q.Len()-1 && r.q.Len() >= 64 {
+			r.st.Note("remove-interior-of>=64")
 		}
 		v, ok := r.q.Remove(i)
 		return r.obs(fmtPop(v, ok))
 	case "set":
 		r.q.Set(ints(op[1:]))
 		r.st.Note("set")
+		if len(op) > 64 {
+			r.st.Note("heapify>=7levels")
+		}
 		return r.obs("-")
 	case "reorder":
 		if op[1] == "rev" {
@@ -139,8 +158,15 @@ func genC05(g *G) {
 		nops := 6 + g.Intn(maxOps)
 		vals := &c05vals{g: g, keys: 8 + g.Intn(nops/4+8), used: map[int]int{}}
 		mode := g.Intn(4)
+		if c%12 == 5 {
+			mode = 4
+		}
 		if v := os.Getenv("VERIF_C05_MODE"); v != "" {
 			mode = atoi(v)
+		}
+		if mode == 4 {
+			g.Case(genC05deep(g))
+			continue
 		}
 		// 0,1: mixed; 2: no Add (Set/NewWithData + Remove/Pop only); 3: grow then drain
 		dir := g.Pick("asc", "rev")
@@ -179,7 +205,11 @@ func genC05(g *G) {
 				ops = append(ops, strings.TrimSpace("set "+strings.Join(vals.list(m), " ")))
 				n = m
 			case k < 79:
-				ops = append(ops, "reorder "+g.Pick("asc", "rev"))
+				// the opposite direction two times in three (re-applying the same order moves nothing)
+				if g.Chance(2, 3) {
+					dir = map[string]string{"asc": "rev", "rev": "asc"}[dir]
+				}
+				ops = append(ops, "reorder "+dir)
 			case k < 80:
 				ops = append(ops, "clear")
 				n = 0
@@ -210,6 +240,54 @@ func genC05(g *G) {
 	}
 }
 
+// genC05deep (second audit §1 C05/C06): heaps of 64..300 elements, built by NewWithData, Set or single Adds,
+// then removal at random DEEP offsets (levels 6..8; the region of F2) mixed with a few Adds, Peeks and Pops,
+// then a complete drain.  The update callback is attached as everywhere (C06: the whole move log is compared).
+func genC05deep(g *G) []string {
+	size := 64 + g.Intn(g.Scale(237, 700))
+	vals := &c05vals{g: g, keys: size/4 + g.Intn(size), used: map[int]int{}}
+	dir := g.Pick("asc", "rev")
+	var ops []string
+	switch g.Intn(3) {
+	case 0:
+		ops = append(ops, "reset "+dir+" "+strings.Join(vals.list(size), " "))
+	case 1:
+		ops = append(ops, "reset "+dir, "set "+strings.Join(vals.list(size), " "))
+	default:
+		ops = append(ops, "reset "+dir+" "+strings.Join(vals.list(g.Intn(8)), " "))
+		for n := len(strings.Fields(ops[0])) - 2; n < size; n++ {
+			ops = append(ops, "add "+strconv.Itoa(vals.next()))
+		}
+	}
+	n := size
+	for r := size/4 + g.Intn(size/3); r > 0 && n > 8; r-- {
+		switch k := g.Intn(20); {
+		case k < 13:
+			// deep: anywhere in the lower half of the array; otherwise anywhere
+			i := n/2 + g.Intn(n-n/2)
+			if g.Chance(1, 4) {
+				i = g.Intn(n)
+			}
+			ops = append(ops, fmt.Sprintf("remove %d", i))
+			n--
+		case k < 15:
+			ops = append(ops, "add "+strconv.Itoa(vals.next()))
+			n++
+		case k < 17:
+			ops = append(ops, "pop")
+			n--
+		case k < 18:
+			ops = append(ops, "front")
+		default:
+			ops = append(ops, fmt.Sprintf("peek %d", g.Intn(n+2)))
+		}
+	}
+	for ; n >= 0; n-- {
+		ops = append(ops, "pop")
+	}
+	return ops
+}
+
 type c05sort struct{ st *Stats }
 
 func (r *c05sort) Exec(op []string) string {
@@ -223,6 +301,11 @@ func (r *c05sort) Exec(op []string) string {
 	}
 	if len(vs) >= 2 {
 		r.st.Note("sort>=2")
+	}
+	if len(vs) >= 255 {
+		r.st.Note("sort>=255")
+	} else if len(vs) >= 40 {
+		r.st.Note("sort-40..254")
 	}
 	heapq.Sort(cmp, vs)
 	return fmtInts(vs)
@@ -239,7 +322,13 @@ func genC05sort(g *G) {
 		if g.Chance(1, 4) {
 			n = g.Intn(5)
 		}
+		if g.Chance(1, 12) {
+			n = 40 + g.Intn(215)
+		}
 		if c < len(big) {
+			if !g.Mine(c) { // the fixed big sizes are divided among the shards
+				continue
+			}
 			n = big[c]
 		}
 		keys := 1 + g.Intn(n+3)
